@@ -430,6 +430,34 @@ func runC14(c C14Case, cs *kit.CaseStats) error {
 				if knownRet {
 					return fmt.Errorf("%s: known=true together with an error", where)
 				}
+				// a refused set leaves nothing behind: the members in front of the
+				// conflicting one, valid and not in conflict with anything, are
+				// accepted when handed in on their own right afterwards
+				policy := false // the pool refuses ephemeral siafund inputs whatever else the set holds
+				if v2 {
+					for _, t := range set2[:max(conflictPos, 0)] {
+						for _, in := range t.SiafundInputs {
+							policy = policy || in.Parent.StateElement.LeafIndex == types.UnassignedLeafIndex
+						}
+					}
+				}
+				if conflictPos >= 1 && !policy && (invalidPos < 0 || invalidPos >= conflictPos) {
+					var perr error
+					if v2 {
+						var prefix []types.V2Transaction
+						for _, t := range set2[:conflictPos] {
+							prefix = append(prefix, t.DeepCopy())
+						}
+						_, perr = node.CM.AddV2PoolTransactions(L.Index(), prefix)
+					} else {
+						_, perr = node.CM.AddPoolTransactions(append([]types.Transaction(nil), set1[:conflictPos]...))
+					}
+					if perr != nil {
+						return fmt.Errorf("%s: the set was refused because of its member %d; its first %d member(s), handed in on their own right afterwards, are refused too: %v", where, conflictPos, conflictPos, perr)
+					}
+					cs.Class("prefix-of-a-refused-set-resubmitted")
+					after = viewPool(node)
+				}
 			} else {
 				cs.Class("submit-accepted")
 				if invalidPos >= 0 {
